@@ -68,7 +68,7 @@ def gen_xy(rng, n, shape):
         t = rng.uniform(0, 1, n)
         x, y = t, t.copy()
     elif shape == "huge-range":
-        x = rng.uniform(-1.7e308, 1.7e308, n)
+        x = rng.uniform(-1, 1, n) * 1.7e308
         y = rng.uniform(0, 1, n)
         if rng.random() < 0.5:
             x, y = y, x
@@ -122,15 +122,15 @@ def gen_arrays(rng, big=False, shape=None):
     elif r < 0.15 and n:
         dtype = "int64"
     if dtype == "int64":
-        x = np.round(x * 10).astype(np.int64)
-        y = np.round(y * 10).astype(np.int64)
+        x = np.round(np.clip(x, -1e6, 1e6) * 10).astype(np.int64)
+        y = np.round(np.clip(y, -1e6, 1e6) * 10).astype(np.int64)
     else:
         x, y = inject_invalid(rng, x), inject_invalid(rng, y)
         if dtype == "float32":
             x, y = x.astype(np.float32), y.astype(np.float32)
             if shape == "uniform" and rng.random() < 0.1 and n:
                 x = (x - np.float32(0.5)) * np.float32(6e38)     # float32 range overflow
-    if rng.random() < 0.05 and n > 1:
+    if rng.random() < 0.03 and n > 1:
         # non-contiguous views are legitimate inputs as well
         x2, y2 = np.empty(2 * n, dtype=x.dtype), np.empty(2 * n, dtype=y.dtype)
         x2[::2], y2[::2] = x, y
@@ -196,7 +196,7 @@ def gen_dataset(rng, big=False):
     """Columns of an RTDC_Dict dataset and a filter recipe."""
     r = rng.random()
     if r < 0.05:
-        n = int(rng.integers(1, 4))
+        n = int(rng.integers(0, 4))
     elif r < 0.6:
         n = int(rng.integers(4, 60))
     elif r < 0.95 or not big:
@@ -215,7 +215,8 @@ def gen_dataset(rng, big=False):
             x = np.abs(x) + (0 if rng.random() < 0.5 else 1e-3)
         x, y = inject_invalid(rng, x), inject_invalid(rng, y)
         if rng.random() < 0.1:
-            x = np.round(np.nan_to_num(x, nan=0, posinf=9, neginf=-9) * 10).astype(np.int64)
+            x = np.round(np.clip(np.nan_to_num(x, nan=0, posinf=9, neginf=-9), -1e6, 1e6)
+                         * 10).astype(np.int64)
         cols[feats[j]] = x
         shapes[feats[j]] = shape
         if j + 1 < nfe:
@@ -229,11 +230,15 @@ def gen_dataset(rng, big=False):
         for f in feats[:int(rng.integers(1, 3))]:
             v = cols[f][np.isfinite(cols[f])] if cols[f].dtype.kind == "f" else cols[f]
             if v.size:
-                lo, hi = np.quantile(v, sorted(rng.uniform(0, 1, 2)))
+                if rng.random() < 0.7:
+                    qs = [rng.uniform(0, 0.4), rng.uniform(0.6, 1)]
+                else:
+                    qs = sorted(rng.uniform(0, 1, 2))
+                lo, hi = np.quantile(v, qs)
                 if lo != hi:
                     recipe["box"].append([f, float(lo), float(hi)])
     if rng.random() < 0.5:
-        p = float(rng.choice([0.02, 0.3, 0.7, 0.98, 1.0]))
+        p = float(rng.choice([0.02, 0.1, 0.3, 0.3, 0.7, 0.7, 0.98, 1.0]))
         recipe["manual"] = (rng.random(n) < p)                    # True = excluded
     if rng.random() < 0.25 and nfe >= 2:
         fx, fy = feats[0], feats[1]
@@ -245,7 +250,7 @@ def gen_dataset(rng, big=False):
             sy = float(np.ptp(vy)) or 1.0
             if np.isfinite(sx) and np.isfinite(sy):
                 ang = np.sort(rng.uniform(0, 2 * np.pi, int(rng.integers(3, 7))))
-                rad = rng.uniform(0.1, 0.6, ang.size)
+                rad = rng.uniform(0.2, 0.9, ang.size)
                 pts = np.stack([cx + sx * rad * np.cos(ang), cy + sy * rad * np.sin(ang)],
                                axis=1)
                 recipe["polygon"] = {"axes": [fx, fy], "points": pts.tolist(),
